@@ -874,6 +874,7 @@ func init() {
 					} else {
 						e.havocTargets(cx.st, env.resolveModifies(con.Modifies))
 					}
+					fr.havocCaptured(cx.st, clo)
 					na := e.vc.fresh("alloc", "Int")
 					e.vc.assume(fmt.Sprintf("(>= %s %s)", na, cx.st.alloc))
 					cx.st.alloc = na
@@ -894,6 +895,58 @@ func init() {
 			}
 		}
 		return fr.havocCall(cx, "closure without frame contract")
+	}
+}
+
+// havocCaptured: the variables a closure captures by reference may have been assigned by its executions.
+// They are cells of the caller (often local-only, hence untouched by ordinary havoc), so they are made
+// arbitrary explicitly — unless the closure provably never stores to the captured variable.
+func (fr *Frame) havocCaptured(st *State, clo *Closure) {
+	e := fr.eng
+	for i, fv := range clo.fn.FreeVars {
+		if i >= len(clo.bindings) {
+			break
+		}
+		pt, ok := fv.Type().Underlying().(*types.Pointer)
+		if !ok || isStructLike(pt.Elem()) {
+			continue
+		}
+		written := false
+		var scan func(v ssa.Value, depth int)
+		scan = func(v ssa.Value, depth int) {
+			if depth > 3 || v.Referrers() == nil {
+				written = true
+				return
+			}
+			for _, r := range *v.Referrers() {
+				switch r := r.(type) {
+				case *ssa.Store:
+					if r.Addr == v {
+						written = true
+					}
+				case *ssa.MakeClosure:
+					// captured again by a nested closure: look into it
+					if fn, ok := r.Fn.(*ssa.Function); ok {
+						for j, b := range r.Bindings {
+							if b == v && j < len(fn.FreeVars) {
+								scan(fn.FreeVars[j], depth+1)
+							}
+						}
+					}
+				case *ssa.UnOp, *ssa.DebugRef:
+				default:
+					written = true // address used in another way: be conservative
+				}
+			}
+		}
+		scan(fv, 0)
+		if !written {
+			continue
+		}
+		c := e.boxComp(pt.Elem())
+		nv := e.vc.fresh("captured."+fv.Name(), e.vc.sortOf(pt.Elem()))
+		e.wf(st, nv, pt.Elem())
+		st.heap[c] = e.vc.name("h", e.compSort[c], sto(e.get(st, c), clo.bindings[i], nv))
 	}
 }
 
@@ -940,6 +993,7 @@ func (fr *Frame) repeatedClosure(cx *callCtx, v ssa.Value, args func() []Term, k
 			e.havocComp(cx.st, c)
 		}
 	}
+	fr.havocCaptured(cx.st, clo)
 	if len(mods) > 0 {
 		na := vc.fresh("alloc", "Int")
 		vc.assume(fmt.Sprintf("(>= %s %s)", na, cx.st.alloc))
@@ -1029,5 +1083,65 @@ func init() {
 		vc := cx.fr.eng.vc
 		vc.decl("fn:qty_parse", "(declare-fun qty_parse (Str) Int)")
 		return []Term{fmt.Sprintf("(qty_parse %s)", cx.args[0])}
+	}
+}
+
+// The scheduler's own parallelizeUntil(workers, pieces, fn func(int) bool): workers pull indices below
+// `pieces` and call fn until it answers false. Modelled like workqueue.ParallelizeUntil (sequentially, any
+// number of calls in any order): with a closure contract its frame applies, otherwise the closure is probed.
+func init() {
+	stubs["sigs.k8s.io/karpenter/pkg/controllers/provisioning/scheduling.parallelizeUntil"] = func(cx *callCtx) []Term {
+		fr := cx.fr
+		e := fr.eng
+		vc := e.vc
+		if len(cx.argVs) < 3 || cx.spec {
+			return fr.havocCall(cx, "parallelizeUntil")
+		}
+		clo := fr.closureOf(cx.argVs[2])
+		if clo == nil || clo.fn.Parent() == nil {
+			return fr.havocCall(cx, "parallelizeUntil with unknown function")
+		}
+		vc.assumes["parallelizeUntil only runs the function it is given (for indices below pieces) and returns after all workers returned; executions are modelled one at a time"] = true
+		key := canonName(clo.fn.Parent()) + " closure@parallelizeUntil"
+		if con := e.cs.Fns[key]; con != nil && con.HasMod {
+			nf := e.newFrame(clo.fn, fr)
+			for i, fv := range clo.fn.FreeVars {
+				if i < len(clo.bindings) {
+					nf.vals[fv] = clo.bindings[i]
+				}
+			}
+			pre := cx.st.clone()
+			env := nf.specEnvFor(pre)
+			env.con = con
+			env.pkg = con.Pkg
+			env.old = pre
+			if con.ModAll {
+				var exc []modTarget
+				if len(con.Except) > 0 {
+					exc = env.resolveModifies(con.Except)
+				}
+				for c := range e.compSort {
+					if !strings.HasPrefix(c, "$") {
+						e.havocComp(cx.st, c)
+					}
+				}
+				e.assumeExcept(cx.st, pre, exc)
+			} else {
+				e.havocTargets(cx.st, env.resolveModifies(con.Modifies))
+			}
+			fr.havocCaptured(cx.st, clo)
+			na := vc.fresh("alloc", "Int")
+			vc.assume(fmt.Sprintf("(>= %s %s)", na, cx.st.alloc))
+			cx.st.alloc = na
+			e.vc.usedCon[key] = true
+			return nil
+		}
+		pieces := cx.args[1]
+		if _, ok := fr.repeatedClosure(cx, cx.argVs[2], func() []Term {
+			return []Term{vc.freshAlways("piece", "Int")}
+		}, false, func(as []Term) Term { return fmt.Sprintf("(and (<= 0 %s) (< %s %s))", as[0], as[0], pieces) }); ok {
+			return nil
+		}
+		return fr.havocCall(cx, "parallelizeUntil: closure with loops and no contract")
 	}
 }
